@@ -60,8 +60,8 @@ def main(args):
         while done < n and i < n * 20:
             case = prop.generate(Rng(derive(args.seed, pid, i)), "quick", i)
             i += 1
-            if has_fault(case):
-                continue
+            if has_fault(case) or case.get("note") == "unreadable" or case.get("fault") == "unreadable":
+                continue      # injected I/O errors cannot be produced on the real filesystem (we run as root)
             if case.get("fill_order", {}).get("kind", "default") != "default":
                 continue      # the fill-order knob is patched in process; a real subprocess cannot see it
             if pid == "C13" and case.get("mode") != "cli":
